@@ -918,7 +918,14 @@ def _semantics(run, L, what, w, items, bulk, below_labels, dim_in, dim, n, aux):
                 V("pseudo:per-sample", f"{what}: per-sample labels {_s(items)}, given pseudo labels {_s(table.tolist())}")
         elif form in ("soft", "thr"):
             am = table.argmax(dim=1).tolist() if n else []
-            if any(v != a and not (form == "thr" and v == -1) for v, a in zip(items, am)):
+            # in a narrow dtype two entries of a row can round to the same probability: every index that attains the row maximum of the raw
+            # row or of its softmax (computed in the table's own dtype, as the wrapper does) is a legitimate argmax
+            def _max_set(i):
+                import torch
+                row = table[i]
+                sm = row.float().softmax(dim=0) if row.dtype in (torch.int64, torch.int32) else row.softmax(dim=0)
+                return {int(j) for j in (row == row.max()).nonzero().flatten().tolist()} | {int(j) for j in (sm == sm.max()).nonzero().flatten().tolist()}
+            if any(v != a and not (form == "thr" and v == -1) and v not in _max_set(i) for i, (v, a) in enumerate(zip(items, am))):
                 V("pseudo:not-argmax-or-marker", f"{what}: per-sample labels {_s(items)}, row maxima at {_s(am)}")
             elif form == "thr" and L["thr"] == 0.0 and any(v == -1 for v in items):
                 V("pseudo:threshold-extreme", f"{what}: threshold 0 hides labels: {_s(items)}")
